@@ -911,6 +911,8 @@ func (e *Enc) rangeOperandName(h *ssa.BasicBlock) string {
 	if p, ok := operand.(*ssa.Parameter); ok {
 		return p.Name()
 	}
+	// prefer the name of a variable or field the operand is bound to; fall back to the called function
+	callName := ""
 	for _, b := range e.fn.Blocks {
 		for _, ins := range b.Instrs {
 			if dr, ok := ins.(*ssa.DebugRef); ok && dr.X == operand && !dr.IsAddr {
@@ -918,15 +920,15 @@ func (e *Enc) rangeOperandName(h *ssa.BasicBlock) string {
 				if rangeNameRe.MatchString(txt) {
 					return txt
 				}
-				if call, isCall := dr.Expr.(*ast.CallExpr); isCall {
+				if call, isCall := dr.Expr.(*ast.CallExpr); isCall && callName == "" {
 					if ft := types.ExprString(call.Fun); rangeNameRe.MatchString(ft) {
-						return ft + "()"
+						callName = ft + "()"
 					}
 				}
 			}
 		}
 	}
-	return ""
+	return callName
 }
 
 func (e *Enc) enterLoop(h *ssa.BasicBlock, li *loopInfo, fpreds []*ssa.BasicBlock, fconds []string, merged *State) {
